@@ -597,7 +597,10 @@ class RopeFile:
         return self._readable
 
     def readinto(self, b):
-        raise Unsupported('readinto on an abstract file')
+        if not isinstance(b, RopeArray):
+            raise Unsupported('readinto a real buffer from an abstract file')
+        data = self.read(b.n)
+        return b._fill(data)
 
     def writable(self):
         return True
@@ -608,6 +611,36 @@ class RopeFile:
 
     def __exit__(self, *a):
         self.close()
+
+
+class RopeArray:
+    """bytearray(n) used as a reusable read buffer: content is a rope; readinto() overwrites a prefix, slices read the content"""
+    def __init__(self, n):
+        self.n = n
+        self.content = builtins.bytes(n) if isinstance(n, builtins.int) else mk('b', [Fill(b'\x00', n)])
+
+    def __len__(self):
+        if isinstance(self.n, builtins.int):
+            return self.n
+        raise Unsupported('len() of a symbolic-size buffer')
+
+    def __slen__(self):
+        return self.n
+
+    def __getitem__(self, k):
+        return sh_getitem(self.content, k) if isinstance(k, slice) else self.content[k]
+
+    def _fill(self, data):
+        k = rlen(data)
+        rest = sh_getitem(self.content, slice(k, None))
+        self.content = norm('b', rope.pieces_of(data) + rope.pieces_of(rest))
+        return k
+
+
+def sh_bytearray(*a, **kw):
+    if builtins.len(a) == 1 and isinstance(a[0], (builtins.int, SInt)) and not isinstance(a[0], bool):
+        return RopeArray(a[0])
+    return builtins.bytearray(*a, **kw)
 
 
 class IoStub:
@@ -948,6 +981,7 @@ SHADOWS = {
     '__fuel__': core.FUEL,
     'open': VFS.open,
     'range': sh_range,
+    'bytearray': sh_bytearray,
     'min': sh_min,
     'max': sh_max,
     'abs': sh_abs,
